@@ -95,6 +95,20 @@ class Evaluator:
             if isinstance(inner, (tuple, list)) and t[2].isdigit():
                 return inner[int(t[2])]
             raise Stuck("field %s of %r" % (t[2], inner))
+        if k == "len":
+            return len(self.ev(t[1]))
+        if k == "slice":
+            s = self.ev(t[1])
+            a = self.ev(t[2])
+            b = self.ev(t[3]) if t[3] is not None else len(s)
+            return s[a:b]
+        if k == "proj" and isinstance(t[2], tuple) and t[2][0] == "cidx":
+            s = self.ev(t[1])
+            i = t[2][1]
+            if t[2][2]:
+                i = len(s) - i
+            c = s[i]
+            return ord(c) if isinstance(c, str) else c
         if k == "agg":
             if t[1] == "adt" and t[2] in ("std::option::Option",):
                 return Opt(t[3] == "Some", self.ev(agg_get(t, "0")) if t[3] == "Some" else None)
